@@ -71,7 +71,7 @@ def star_collection(rng, max_vertices):
             return realise(rng, m, edges)
 
 def collection(rng, maxn, maxk, kind=None):
-    kind = kind or rng.choice(["random", "random", "sparse", "star", "star", "star+", "star-dep", "star-dep", "clo-dep", "path", "commuting", "union", "2local"])
+    kind = kind or rng.choice(["random", "random", "sparse", "star", "star", "star+", "star-dep", "star-dep", "clo-dep", "path", "commuting", "union", "2local", "chain+", "chain+"])
     if kind == "random":
         n = rng.randint(1, maxn)
         return [rs(rng, n) for _ in range(rng.randint(1, maxk))]
@@ -130,6 +130,27 @@ def collection(rng, maxn, maxk, kind=None):
         if rng.random() < 0.7:
             rng.shuffle(gs)
         return gs
+    if kind == "chain+":
+        # nearest-neighbour chain (two or three 2-local couplings translated along >= 5 qubits) plus long-range strings:
+        # long legs that get cut and re-attached (steps IV / VI of the reduction)
+        n = rng.randint(min(5, maxn), max(min(5, maxn), min(maxn, 8)))
+        base = rng.sample(["ZZ", "ZX", "XZ", "XX", "YY", "XY", "YZ", "ZY", "YX"], rng.randint(2, 3))
+        out = []
+        for b in base:
+            for k in range(n - 1):
+                st = "I" * k + b + "I" * (n - 2 - k)
+                if st not in out:
+                    out.append(st)
+        for _ in range(rng.randint(1, 2)):
+            st = rs(rng, n, 2)
+            if st not in out and st != "I" * n:
+                out.append(st)
+        r = rng.random()
+        if r < 0.4:
+            rng.shuffle(out)
+        elif r < 0.7:
+            out = out[-2:] + out[:-2]
+        return out
     if kind == "path":
         m = rng.randint(min(2, maxn), maxn)
         return realise(rng, m, [(i, i + 1) for i in range(m - 1)])
